@@ -144,6 +144,11 @@ func parseArgsWithExpiration(args map[string]any, defaultHandler func(name strin
 				if n > math.MaxInt64/int64(time.Millisecond) {
 					return
 				}
+			case "expiration.unix-time-seconds":
+				// as redis: an absolute time in seconds must fit 64-bit milliseconds
+				if n > math.MaxInt64/1000 {
+					return
+				}
 			}
 		}
 	}
